@@ -78,6 +78,21 @@ theorem scaleFrame_comp (a b : Rat) (f : Frame) : scaleFrame b (scaleFrame a f) 
   intro row _
   simp [Function.comp_def, scaleRow_comp]
 
+theorem scalePreview_one (p : Rat) : scalePreview 1 p = p := by
+  simp [scalePreview]
+
+theorem scalePreview_comp {a : Rat} (ha : 0 < a) (b p : Rat) :
+    scalePreview b (scalePreview a p) = scalePreview (a * b) p := by
+  unfold scalePreview
+  by_cases hp : p < 0
+  · simp [hp]
+  · have : ¬ p / a < 0 := not_lt.mpr (div_nonneg (not_lt.mp hp) (le_of_lt ha))
+    simp [hp, this, div_div]
+
+theorem scalePreview_nonneg {r : Rat} (hr : 0 < r) {p : Rat} (hp : 0 ≤ p) : 0 ≤ scalePreview r p := by
+  simp only [scalePreview, not_lt.mpr hp, if_false]
+  exact div_nonneg hp (le_of_lt hr)
+
 theorem scaleChart_one (g : Game) (c : Chart) : scaleChart g 1 c = c := by
   cases c with
   | mk lists samples preview extra =>
@@ -88,10 +103,10 @@ theorem scaleChart_one (g : Game) (c : Chart) : scaleChart g 1 c = c := by
       · cases samples <;> simp [hg, scaleFrame_one]
       · simp [hg]
     · by_cases hg : g = .osu
-      · cases preview <;> simp [hg]
+      · cases preview <;> simp [hg, scalePreview_one]
       · simp [hg]
 
-theorem scaleChart_comp (g : Game) (a b : Rat) (c : Chart) :
+theorem scaleChart_comp (g : Game) {a : Rat} (ha : 0 < a) (b : Rat) (c : Chart) :
     scaleChart g b (scaleChart g a c) = scaleChart g (a * b) c := by
   cases c with
   | mk lists samples preview extra =>
@@ -102,7 +117,7 @@ theorem scaleChart_comp (g : Game) (a b : Rat) (c : Chart) :
       · cases samples <;> simp [scaleFrame_comp]
       · rfl
     · split
-      · cases preview <;> simp [div_div]
+      · cases preview <;> simp [scalePreview_comp ha]
       · rfl
 
 theorem scaleSet_one (k : SetKind) (g : Game) (s : MapSet) : scaleSet k g 1 s = s := by
@@ -121,13 +136,13 @@ theorem scaleSet_one (k : SetKind) (g : Game) (s : MapSet) : scaleSet k g 1 s = 
       · cases sl <;> simp
       · rfl
 
-theorem scaleSet_comp (k : SetKind) (g : Game) (a b : Rat) (s : MapSet) :
+theorem scaleSet_comp (k : SetKind) (g : Game) {a : Rat} (ha : 0 < a) (b : Rat) (s : MapSet) :
     scaleSet k g b (scaleSet k g a s) = scaleSet k g (a * b) s := by
   cases s with
   | mk maps offset ss sl extra =>
     simp only [scaleSet, List.map_map, MapSet.mk.injEq, and_true]
     refine ⟨?_, ?_, ?_, ?_⟩
-    · apply List.map_congr_left; intro c _; simp [Function.comp_def, scaleChart_comp]
+    · apply List.map_congr_left; intro c _; simp [Function.comp_def, scaleChart_comp g ha]
     · split
       · cases offset <;> simp [div_div]
       · rfl
@@ -208,7 +223,7 @@ theorem samplesOk_scale (r : Rat) (f : Frame) (h : samplesOk f = true) : samples
     by simpa [scaleFrame] using h5⟩
   rw [col_scaleFrame, all_numeric_scale]; exact h3
 
-theorem chartOk_scale (g : Game) (r : Rat) (c : Chart) (h : chartOk g c = true) : chartOk g (scaleChart g r c) = true := by
+theorem chartOk_scale (g : Game) {r : Rat} (hr : 0 < r) (c : Chart) (h : chartOk g c = true) : chartOk g (scaleChart g r c) = true := by
   simp only [chartOk, Bool.and_eq_true] at h ⊢
   obtain ⟨h1, h2⟩ := h
   constructor
@@ -224,11 +239,12 @@ theorem chartOk_scale (g : Game) (r : Rat) (c : Chart) (h : chartOk g c = true) 
         cases hp : c.preview with
         | none => simp [hs, hp] at h2
         | some pv =>
-          simp only [hs, hp] at h2
-          simpa using samplesOk_scale r sm h2
+          simp only [hs, hp, Bool.and_eq_true, decide_eq_true_eq] at h2
+          simp only [Option.map_some, Bool.and_eq_true, decide_eq_true_eq]
+          exact ⟨samplesOk_scale r sm h2.1, scalePreview_nonneg hr h2.2⟩
     · simp [hg]
 
-theorem setOk_scale (k : SetKind) (g : Game) (r : Rat) (s : MapSet) (h : setOk k g s = true) :
+theorem setOk_scale (k : SetKind) (g : Game) {r : Rat} (hr : 0 < r) (s : MapSet) (h : setOk k g s = true) :
     setOk k g (scaleSet k g r s) = true := by
   simp only [setOk, Bool.and_eq_true, List.all_eq_true] at h ⊢
   obtain ⟨h1, h2⟩ := h
@@ -236,7 +252,7 @@ theorem setOk_scale (k : SetKind) (g : Game) (r : Rat) (s : MapSet) (h : setOk k
   · intro c hc
     simp only [scaleSet, List.mem_map] at hc
     obtain ⟨c0, hc0, rfl⟩ := hc
-    exact chartOk_scale g r c0 (h1 c0 hc0)
+    exact chartOk_scale g hr c0 (h1 c0 hc0)
   · by_cases hk : k = .sm
     · subst hk
       simp only [if_true, scaleSet, Bool.and_eq_true, Option.isSome_map] at h2 ⊢
